@@ -308,14 +308,17 @@ func (n *networkTopology) replicaMap(tokenRing *tokenRing) tokenRingReplicas {
 		replicaRing = append(replicaRing, hostTokens{th.token, replicas})
 	}
 
-	dcsWithReplicas := 0
-	for _, dc := range n.dcs {
-		if dc > 0 {
-			dcsWithReplicas++
+	// every token has replicas only if every datacenter of the ring is replicated to; the keyspace
+	// may name other datacenters than the ring has
+	allRingDCsHaveReplicas := true
+	for dc := range dcRacks {
+		if n.dcs[dc] == 0 {
+			allRingDCsHaveReplicas = false
+			break
 		}
 	}
 
-	if dcsWithReplicas == len(dcRacks) && len(replicaRing) != len(tokens) {
+	if allRingDCsHaveReplicas && len(replicaRing) != len(tokens) {
 		panic(fmt.Sprintf("token map different size to token ring: got %d expected %d", len(replicaRing), len(tokens)))
 	}
 
